@@ -1,9 +1,79 @@
-From Coq Require Import ZArith List.
-From GS Require Import Base.LTS Model.Ticker Proofs.Ticker.
+(* C18 — aligned flushing happens exactly on interval boundaries.
+
+   Vocabulary (Model/Ticker.v; instants and durations are Z nanoseconds, instants counted from
+   Go's zero time): [initial_wait now i o] is the duration AlignedTicker.start hands to
+   clck.NewTimer; [round_tick t i o] is the value sendTick puts on C for a raw tick t;
+   [step i o] is the transition function of the system {mock clock, ticker goroutine, flusher
+   loop} with labels [Advance d] (the clock is advanced by d >= 0), [Tick] (the ticker goroutine
+   performs its next atomic action) and [Consume] (MetricFlusher.Run receives from C and
+   flushes); [init start wall0] is the state at creation with the clock at [start] and the
+   flusher's lastFlush initialised from the wall clock reading [wall0].  A flush [f] records the
+   clock reading [f_at f], the tick value [f_tick f] received from C and the interval
+   [f_delta f] handed to Aggregator.Flush; [flushes s] is the history, newest first;
+   [flush_times s = map f_tick (rev (flushes s))].  [max_dur] = math.MaxInt64: the hypothesis
+   [i <= max_dur] says only that the interval is a time.Duration. *)
+From Coq Require Import ZArith List Sorted.
+From GS Require Import Base.LTS Model.Ticker Proofs.Ticker Proofs.TickerLTS.
+Import ListNotations.
 Local Open Scope Z_scope.
 
+(* The first timer is armed for a wait in (0, interval] that ends on a boundary. *)
 Theorem C18_initial_wait : forall start i o,
   0 < i <= max_dur ->
   0 < initial_wait start i o <= i /\ (start + initial_wait start i o - o) mod i = 0.
 Proof. exact initial_wait_spec. Qed.
 Print Assumptions C18_initial_wait.
+
+(* Whatever raw value the clock delivers, the value sent on C is the latest boundary <= it. *)
+Theorem C18_tick_aligned : forall t i o,
+  0 < i ->
+  (round_tick t i o - o) mod i = 0 /\ round_tick t i o <= t < round_tick t i o + i.
+Proof. exact round_tick_aligned. Qed.
+Print Assumptions C18_tick_aligned.
+
+(* Along every label sequence every flush is triggered by a tick value on a boundary, and
+   never before the clock has reached that boundary. *)
+Theorem C18_flush_aligned : forall i o start wall0 ls s,
+  0 < i ->
+  run (step i o) (init start wall0) ls = Some s ->
+  forall f, In f (flushes s) -> (f_tick f - o) mod i = 0 /\ f_tick f <= f_at f.
+Proof. exact run_flush_aligned. Qed.
+Print Assumptions C18_flush_aligned.
+
+(* Along every label sequence the values delivered on C strictly increase. *)
+Theorem C18_strictly_increasing : forall i o start wall0 ls s,
+  0 < i ->
+  run (step i o) (init start wall0) ls = Some s ->
+  StronglySorted Z.lt (flush_times s).
+Proof. exact run_strictly_increasing. Qed.
+Print Assumptions C18_strictly_increasing.
+
+(* Along every label sequence, for every flush f after the first (p is the flush before it):
+   the ticks are k > 0 intervals apart and the interval handed to the aggregators is that
+   distance as computed by Time.Sub, i.e. k * i unless k * i exceeds the largest Duration (then
+   Time.Sub saturates at max_dur). *)
+Theorem C18_delta_multiple : forall i o start wall0 ls s,
+  0 < i ->
+  run (step i o) (init start wall0) ls = Some s ->
+  forall pre p f post, rev (flushes s) = pre ++ p :: f :: post ->
+    exists k, 0 < k /\ f_tick f = f_tick p + k * i
+              /\ f_delta f = sat_dur (k * i) /\ (k * i <= max_dur -> f_delta f = k * i).
+Proof. exact run_delta_multiple. Qed.
+Print Assumptions C18_delta_multiple.
+
+(* Along every label sequence the first flush: [started s = Some st] is the clock reading the
+   ticker goroutine obtained from clck.Now() when it started, [armed s = Some (a, w)] the clock
+   reading at its clck.NewTimer call and the wait it passed.  The first tick is the boundary
+   reached by that timer: strictly after st, at most one interval after a; and exactly
+   st + initial wait (<= st + i, C18_initial_wait) when the clock did not move between the two
+   calls. *)
+Theorem C18_first_flush : forall i o start wall0 ls s,
+  0 < i <= max_dur ->
+  run (step i o) (init start wall0) ls = Some s ->
+  forall t0 rest, flush_times s = t0 :: rest ->
+    exists st a, started s = Some st /\ armed s = Some (a, initial_wait st i o) /\ st <= a
+      /\ t0 = round_tick (a + initial_wait st i o) i o
+      /\ st < t0 <= a + i
+      /\ (a = st -> t0 = st + initial_wait st i o).
+Proof. exact run_first_flush. Qed.
+Print Assumptions C18_first_flush.
